@@ -221,9 +221,11 @@ def main(tier, seed, replay=None):
             # drop the refresh after a site write: the next read of that environment is stale
             if e['op'] == 'coherence':
                 ev = e['events']
-                for i in range(len(ev) - 1):
-                    if ev[i][0] == 'clear' and ev[i + 1][0] == 'update':
-                        del ev[i:i + 2]
+                for i in range(4, len(ev) - 1):
+                    # update(n -> last) right before a read that uses F[n, n+1] (heff1 at n+1 / heff2 at (n+1, n+2)), site n written just before: without the update the read is stale
+                    if ev[i][0] == 'update' and ev[i][2] == 'last' and ev[i + 1][0] in ('heff1', 'heff2') and ev[i + 1][1] == ev[i][1] + 1 \
+                            and any(x[0] == 'write' and x[1] == ev[i][1] for x in ev[i - 4:i]) and any(x[0] == 'clear' and x[1] == ev[i][1] for x in ev[i - 4:i]):
+                        del ev[i]
                         return True
         def c_sched(e):
             if e['op'] == 'schedule' and len(e['cache']) > 4:
